@@ -293,7 +293,7 @@ EXTRA_TEXT = {'C01': ' Edges whose template reads a second variable given as a p
               'C14': ' Derive.tla (BaseUntouched) is replayed for every edit dictionary through update_template and YAML base:; the universe contains a node overriding an operator another node uses as declared (explicit dict-form variable).',
               'C15': " Derive.tla: derived equations = token-wise edit of the parent's equations (replace, remove, append, prepend) plus the added equations verbatim, Python and YAML forms; Replace.tla uses the full delimiter set of the equation language; the round trip also re-uses a path that held another model.", 'C16': ' Also: two scalar (global) weights converging on one variable, two coupling templates that differ in a constant only.',
               'C17': ' Also sweeps over two attributes (weight and delay) of one edge.',
-              'C18': ' STPNT must load the declared initial state into the layout FUNC reads (distinct initial values, reversed edge direction).',
+              'C18': ' STPNT must load the declared initial state into the layout FUNC reads (distinct initial values, reversed edge direction). The slot loop is additionally verified for every parameter count: Apalache discharges the inductive invariant of spec/apalache/AutoLoopInd.tla (initiation, consecution, IndInv => Safe, monotonicity) and finds the error in the copy with the forgotten offset.',
               'C19': ' One variant places the times far from the origin (2^36 + k 2^-5).',
               'C20': ' The request matrix includes the Population/Connectivity form and both orders of mixed delay kinds; malformed models include every reserved variable name and a variable declared only by a sibling operator (both orders).'}
 
